@@ -73,7 +73,7 @@ class shim_float(metaclass=_FloatMeta):
 
 class _IntMeta(type):
     def __instancecheck__(cls, inst):
-        return isinstance(inst, builtins.int)
+        return isinstance(inst, (builtins.int, SymInt))
 
     def __subclasscheck__(cls, sub):
         return issubclass(sub, builtins.int)
